@@ -1,0 +1,41 @@
+//go:build verif
+
+// Contracts for package srv, read by /verif/govc (comments only).
+package srv
+
+// ---------------------------------------------------------------------------
+// Service lifecycle (C10): a lock-free protocol over isRunning / isFinished.
+// Auxiliary (ghost) variables: finishing - the service goroutine has stored
+// isFinished = true and not yet isRunning = false; late - number of Start
+// calls that flipped isRunning false -> true after the service had finished
+// and have not yet undone it (shared); mylate - this goroutine's share of it.
+// Invariant J: a finished service (not in the middle of finishing, no late
+// starter in flight) is not running: "after Wait returns Running() is false".
+// ---------------------------------------------------------------------------
+
+//@ ghost Service.finishing bool
+//@ ghost Service.late int
+//@ ghost Service.mylate int
+//@ protocol Service(s) = s.late >= 0 && s.late >= s.mylate && (atomicbool(s.isFinished) && !s.finishing && s.late == 0 ==> !atomicbool(s.isRunning))
+//@ protorely Service(s) = old(atomicbool(s.isFinished)) ==> atomicbool(s.isFinished)
+//@ protoshared Service(s) = s.finishing, s.late
+//@ atomicghost Service.isRunning Swap !aold && anew && atomicbool(s.isFinished) && !s.finishing :: s.late = s.late + 1; s.mylate = s.mylate + 1
+//@ atomicghost Service.isFinished Store anew :: s.finishing = true
+//@ atomicghost Service.isRunning Store !anew && s.mylate > 0 :: s.late = s.late - 1; s.mylate = s.mylate - 1
+//@ atomicghost Service.isRunning Store !anew && s.mylate == 0 :: s.finishing = false
+
+// Start: every atomic step preserves J; the call returns nil, or
+// ErrServiceAlreadyStarted / ErrServiceReturned; it leaves no late flip behind
+// (a Start that found the service finished must not leave isRunning set).
+//@ func (*Service).Start
+//@   props C10
+//@   option noframe
+//@   option ghost any
+//@   requires s != nil && ctx != nil && s.mylate == 0
+//@   ensures restored: s.mylate == 0
+//@   ensures classes: result == nil || result == ErrServiceAlreadyStarted || result == ErrServiceReturned
+
+//@ func (*Service).Running
+//@   props C10
+//@   option ghost any
+//@   requires s != nil
